@@ -226,6 +226,45 @@ func genAction(t *rapid.T, id string) client.Action {
 	}
 }
 
+// aimed draws a batch source node and a point that passes the filters of one
+// of the point conditions (so that conditions, and with them the rule, flip
+// often); ok=false if there is no point condition.
+func aimed(t *rapid.T, conds []client.Condition) (string, data.Point, bool) {
+	var pcs []client.Condition
+	for _, c := range conds {
+		if c.ConditionType == data.PointValuePointValue {
+			pcs = append(pcs, c)
+		}
+	}
+	if len(pcs) == 0 {
+		return "", data.Point{}, false
+	}
+	c := pcs[rapid.IntRange(0, len(pcs)-1).Draw(t, "aimAt")]
+	node := c.NodeID
+	if node == "" {
+		node = rapid.SampledFrom(srcNodes).Draw(t, "aimNode")
+	}
+	p := genPoint(t)
+	if p.Type == data.PointTypeTrigger {
+		return node, p, true
+	}
+	if c.PointType != "" {
+		p.Type = c.PointType
+	}
+	if c.PointKey != "" {
+		p.Key = c.PointKey
+	}
+	switch c.ValueType {
+	case data.PointValueNumber:
+		p.Value = c.Value + float64(rapid.IntRange(-1, 1).Draw(t, "aimDelta"))
+	case data.PointValueText:
+		if rapid.Bool().Draw(t, "aimText") {
+			p.Text = c.ValueText
+		}
+	}
+	return node, p, true
+}
+
 func genPoint(t *rapid.T) data.Point {
 	if rapid.IntRange(0, 4).Draw(t, "trigger") == 0 {
 		// a trigger carrying a drawn time around the reference week
@@ -250,7 +289,7 @@ func TestPropRule(t *testing.T) {
 		parent := "par1"
 		cfg := client.Rule{ID: "rule1", Parent: parent, Description: "r", Active: rapid.Bool().Draw(t, "ruleActive")}
 		ref := &refRule{id: cfg.ID, active: cfg.Active}
-		nc := rapid.IntRange(0, 4).Draw(t, "nconds")
+		nc := rapid.SampledFrom([]int{0, 1, 1, 2, 2, 2, 3, 4}).Draw(t, "nconds")
 		kinds := map[string]bool{}
 		for i := 0; i < nc; i++ {
 			c, s := genCondition(t, i)
@@ -313,7 +352,11 @@ func TestPropRule(t *testing.T) {
 		for b := 0; b < nb; b++ {
 			node := rapid.SampledFrom(srcNodes).Draw(t, "node")
 			var pts data.Points
-			for k := rapid.IntRange(1, 3).Draw(t, "npts"); k > 0; k-- {
+			if an, ap, ok := aimed(t, cfg.Conditions); ok && rapid.Bool().Draw(t, "aim") {
+				node = an
+				pts = append(pts, ap)
+			}
+			for k := rapid.IntRange(1, 3).Draw(t, "npts"); k > len(pts); k-- {
 				pts = append(pts, genPoint(t))
 			}
 			predicted = append(predicted, ref.batch(node, pts)...)
